@@ -419,6 +419,55 @@ def r1_r2_r5(run: Run, rt):
                             run.note(f'{h}: quantize without an explicit rounding mode (context default = half-even)')
 
 
+def r7_quantize_context(run: Run, rt):
+    """Decimal.quantize raises InvalidOperation when the result needs more digits than the context precision: a double printed
+    with 15 significant digits has up to 309 integer digits, and ROUND may ask for 15 more decimals -- the context must hold
+    them (the default context holds 28)"""
+    need = 330
+    n = 0
+    for cp in rt.copies():
+        consts = {}
+        for st in cp.cls_node.body + list(cp.module_tree.body):
+            if isinstance(st, ast.Assign) and len(st.targets) == 1 and isinstance(st.targets[0], ast.Name):
+                consts[st.targets[0].id] = st.value
+            elif isinstance(st, ast.AnnAssign) and isinstance(st.target, ast.Name) and st.value is not None:
+                consts[st.target.id] = st.value
+        for name, fn in sorted(cp.members.items()):
+            local = {}
+            for st in ast.walk(fn):
+                if isinstance(st, ast.Assign) and len(st.targets) == 1 and isinstance(st.targets[0], ast.Name):
+                    local.setdefault(st.targets[0].id, []).append(st.value)
+            for c in ast.walk(fn):
+                if not (isinstance(c, ast.Call) and isinstance(c.func, ast.Attribute) and c.func.attr == 'quantize'):
+                    continue
+                n += 1
+                ctx = next((k.value for k in c.keywords if k.arg == 'context'), c.args[2] if len(c.args) > 2 else None)
+                for _ in range(3):
+                    if isinstance(ctx, ast.Attribute) and isinstance(ctx.value, ast.Name) and ctx.value.id in ('self', 'cls') and ctx.attr in consts:
+                        ctx = consts[ctx.attr]
+                    elif isinstance(ctx, ast.Name) and ctx.id in consts:
+                        ctx = consts[ctx.id]
+                    elif isinstance(ctx, ast.Name) and len(local.get(ctx.id, [])) == 1:
+                        ctx = local[ctx.id][0]
+                prec = None
+                if ctx is None:
+                    prec = 28
+                elif isinstance(ctx, ast.Call):
+                    pv = next((k.value for k in ctx.keywords if k.arg == 'prec'), ctx.args[0] if ctx.args else None)
+                    if pv is None:
+                        prec = 28
+                    elif isinstance(pv, ast.Constant) and isinstance(pv.value, int):
+                        prec = pv.value
+                if prec is None:
+                    raise AnalysisError('C16.R7', f'{name}[{cp.label}]: the context of quantize `{ast.unparse(c)[:60]}` cannot be resolved')
+                run.check(prec >= need, 'C16.R7', f'{name}[{cp.label}]/quantize context', 'context-precision-too-small',
+                          f'{name} quantizes in a context of {prec} digits: when the integer digits of the number plus the requested '
+                          f'decimals exceed {prec} (1234567890.1234 to 6 places needs 16) quantize raises InvalidOperation instead of '
+                          f'returning the number', fact=f'prec {prec}', loc=cp.loc(c))
+    if n < 2:
+        raise AnalysisError('C16.R7', f'only {n} quantize call(s) found in the runtime copies')
+
+
 def _words(mode):
     return {'half-away': 'half away from zero', 'away': 'away from zero', 'toward-zero': 'toward zero',
             'half-even': 'half to even (on the binary value for round())', '+inf': 'toward +infinity', '-inf': 'toward -infinity',
@@ -470,6 +519,9 @@ def run(run: Run):
     _src = _gs()
     _borrow(run, 'C16.R6', _c08.r1, _src, _grt(_src), _gcg(_src))
     _borrow(run, 'C16.R6', _c08.r4, _src, _grt(_src))
+    run.rule('C16.R7', 'the decimal context of quantize holds every result (integer digits + requested decimals)')
+    run.guard('C16.R7', r7_quantize_context, run, rt)
+    run.floor('C16.R7', 2)
     run.floor('C16.R6', 50)
     run.floor('C16.R1', 12)
     run.floor('C16.R2', 6)
